@@ -124,13 +124,13 @@ def runMultitower (dom : DomainCfg) (sol : SolverCfg) (met : MetCfg) (towers : L
 /-- `Executor.map` with an arbitrary schedule: `sched` is the order in which the tasks COMPLETE
 (a permutation of the task indices, any assignment to workers); results are written into the slot of
 their task and read out in submission order -/
+def poolStep {α β : Type} (f : α → β) (tasks : List α) (s : List (Option β)) (i : Nat) : List (Option β) :=
+  match tasks[i]? with
+  | some t => s.set i (some (f t))
+  | none => s
+
 def poolMap {α β : Type} (f : α → β) (tasks : List α) (sched : List Nat) : List (Option β) :=
-  let slots : List (Option β) := tasks.map (fun _ => none)
-  let filled := sched.foldl (fun (s : List (Option β)) (i : Nat) =>
-    match tasks[i]? with
-    | some t => s.set i (some (f t))
-    | none => s) slots
-  filled
+  sched.foldl (poolStep f tasks) (tasks.map (fun _ => none))
 
 inductive Strategy where
   | towers | time | both | invalid
@@ -140,5 +140,22 @@ deriving Repr, DecidableEq
 def regroup {β : Type} (nTime : Nat) : List β → Nat → List (List β)
   | _, 0 => []
   | flat, k + 1 => flat.take nTime :: regroup nTime (flat.drop nTime) k
+
+/-- `run_bldfm_parallel` over an abstract single run `single tower step`; `sched` is the completion
+order of the pool (re-used for each pool the strategy creates).  A slot is `none` if its task never
+completed under the schedule. -/
+def runParallel {γ : Type} (strategy : Strategy) (towers : List TowerCfg) (nTime : Nat)
+    (single : TowerCfg → Nat → γ) (sched : List Nat) : Except ErrKind (List (V × List (Option γ))) :=
+  match strategy with
+  | .towers =>
+    let res := poolMap (fun t => (t.name, (List.range nTime).map (fun i => some (single t i)))) towers sched
+    .ok (res.filterMap id)
+  | .time =>
+    .ok (towers.map (fun t => (t.name, poolMap (fun i => single t i) (List.range nTime) sched)))
+  | .both =>
+    let tasks := towers.flatMap (fun t => (List.range nTime).map (fun i => (t, i)))
+    let flat := poolMap (fun (p : TowerCfg × Nat) => single p.1 p.2) tasks sched
+    .ok ((towers.zip (regroup nTime flat towers.length)).map (fun p => (p.1.name, p.2)))
+  | .invalid => .error .valueError
 
 end BLDFM
